@@ -182,7 +182,7 @@ fn c09_emptyflags_and_buffer_size() {
 }
 
 // ---- prime-field encodings: the REAL generic Fp<P,1> codec over plain backends with 7, 3 and 0 spare bits in the top byte
-use crate::plain::{F101, F61, F64};
+use crate::plain::{F101, F61, F63, F64};
 
 macro_rules! fp_codec {
     ($rt:ident, $uniq:ident, $f:ty, $flags:ty, $len:expr) => {
@@ -238,5 +238,8 @@ fp_codec!(c09_f101_empty_rt, c09_f101_empty_uniq, F101, EmptyFlags, 1);
 fp_codec!(c09_f101_sw_rt, c09_f101_sw_uniq, F101, SWFlags, 2);
 fp_codec!(c09_f61_sw_rt, c09_f61_sw_uniq, F61, SWFlags, 8);
 fp_codec!(c09_f61_te_rt, c09_f61_te_uniq, F61, TEFlags, 8);
+// one spare bit: the 1-bit TE flag fits in the top byte, the 2-bit SW flag does not (extra byte with 6 must-be-zero bits)
+fp_codec!(c09_f63_te_rt, c09_f63_te_uniq, F63, TEFlags, 8);
+fp_codec!(c09_f63_sw_rt, c09_f63_sw_uniq, F63, SWFlags, 9);
 fp_codec!(c09_f64_empty_rt, c09_f64_empty_uniq, F64, EmptyFlags, 8);
 fp_codec!(c09_f64_sw_rt, c09_f64_sw_uniq, F64, SWFlags, 9);
